@@ -42,6 +42,8 @@ def run(tier, v):
     files, details = E.gather(out)
     bad, _, st = E.judge(files, "TransferObs", "TransferObs_c18.cfg", v, details, "obs", keyfn=keyfn, timeout=3000)
     cov["traces_validated_against_impl"] = s["runs"]
+    # the pause begins while a pipeline goroutine is held at each of its blocking operations
+    E.run_points(h, "pause", "TransferObs_c18.cfg", v, cov, tier, keyfn=keyfn)
     cov["tv_states"] = st
     cov["obs_files_rejected"] = bad
     table = {}
